@@ -188,7 +188,16 @@ func (b *Buffer) ReadTime() time.Time {
 		return time.Time{}
 	}
 	// decode time in "100 nanosecond intervals since January 1, 1601" manner.
-	return time.Unix(0, int64((ts-116444736000000000)*100)).UTC()
+	// The value is a signed number. It is split into seconds and nanoseconds
+	// since the range of DateTime is larger than what fits into 64 bit
+	// of nanoseconds (1677-2262).
+	ticks := int64(ts)
+	if ticks < 0 {
+		// earlier than 1601-01-01: the smallest value
+		return time.Time{}
+	}
+	ticks -= 116444736000000000
+	return time.Unix(ticks/1e7, (ticks%1e7)*100).UTC()
 }
 
 func (b *Buffer) ReadN(n int) []byte {
@@ -312,8 +321,22 @@ func (b *Buffer) WriteTime(v time.Time) {
 	d := make([]byte, 8)
 	if !v.IsZero() {
 		// encode time in "100 nanosecond intervals since January 1, 1601"
-		ts := uint64(v.UTC().UnixNano()/100 + 116444736000000000)
-		binary.LittleEndian.PutUint64(d, ts)
+		// do not use UnixNano which is only defined for 1677-2262
+		var ts int64
+		const (
+			epoch  = 116444736000000000 // 1601-01-01 .. 1970-01-01 in 100ns ticks
+			maxSec = (math.MaxInt64 - epoch) / 10000000
+		)
+		sec, ticks := v.Unix(), int64(v.Nanosecond()/100)
+		switch {
+		case sec > maxSec || (sec == maxSec && ticks > math.MaxInt64-epoch-maxSec*10000000):
+			ts = math.MaxInt64 // later than the largest value
+		case sec < -epoch/10000000:
+			ts = 0 // earlier than 1601-01-01: the smallest value
+		default:
+			ts = sec*10000000 + ticks + epoch
+		}
+		binary.LittleEndian.PutUint64(d, uint64(ts))
 	}
 	b.Write(d)
 }
